@@ -280,22 +280,61 @@ class Ctx:
             raise Infra("emission run %s/%s wrote nothing" % (module, cfg))
         return r
 
+    CHUNK_BYTES = int(os.environ.get("VERIF_CHUNK_MB", "96")) << 20
+
     def validate(self, module, cfg, tracefile, env=None, timeout=1800, heap="8g", workers=1, **kw):
         """Leg T: validate an NDJSON trace file against Trace_<X>. The trace spec is deterministic
-        (every field logged) and reports each unexplained line with PrintT(<<"FAIL", line, case, what>>);
-        all lines must be consumed.  Returns (fails, stats)."""
+        (every field logged) and reports each unexplained line with PrintT("FAIL|line|case|what|detail");
+        all lines must be consumed.  Returns (fails, stats).
+        A file larger than CHUNK_BYTES is validated in pieces (TLC deserialises the whole file into the heap): a piece
+        starts only where the trace spec starts afresh - at a "reset" event when the spec has one, at any line when
+        the spec keeps no state besides the line counter."""
         n = 0
         with open(tracefile, "rb") as f:
             for _ in f:
                 n += 1
         if n == 0:
             raise Infra("empty trace %s" % tracefile)
+        if os.path.getsize(tracefile) <= self.CHUNK_BYTES:
+            return self._validate1(module, cfg, tracefile, n, 0, env, timeout, heap, workers, **kw)
+        with open(os.path.join(VERIF, "spec", module + ".tla")) as f:
+            has_reset = '"reset"' in f.read()
+        pieces = []
+        out, size, start, cnt = None, 0, 0, 0
+        with open(tracefile, "rb") as f:
+            for i, line in enumerate(f):
+                if out is None or (size >= self.CHUNK_BYTES and (not has_reset or b'"ev":"reset"' in line)):
+                    if out is not None:
+                        out.close()
+                        pieces[-1][2] = cnt
+                    pp = "%s.part%d" % (tracefile, len(pieces))
+                    out, size, cnt = open(pp, "wb"), 0, 0
+                    pieces.append([pp, i, 0])
+                out.write(line)
+                size += len(line)
+                cnt += 1
+        out.close()
+        pieces[-1][2] = cnt
+        fails, last = [], None
+        agg = {"generated": 0, "distinct": 0, "depth": 0, "wall_s": 0.0, "warns": [], "out": "", "violated": None}
+        for pp, off, cnt in pieces:
+            fs, r = self._validate1(module, cfg, pp, cnt, off, env, timeout, heap, workers, **kw)
+            os.remove(pp)
+            fails += fs
+            for k in ("generated", "distinct", "wall_s"):
+                agg[k] += r[k]
+            agg["depth"] = max(agg["depth"], r["depth"])
+            agg["warns"] += r["warns"]
+        log("[tlc] %s validated in %d pieces" % (os.path.basename(tracefile), len(pieces)))
+        return fails, agg
+
+    def _validate1(self, module, cfg, tracefile, n, offset, env, timeout, heap, workers, **kw):
         e = dict(env or {})
         e["TRACE_FILE"] = tracefile
         r = self.tlc(module, cfg, env=e, workers=workers, timeout=timeout, heap=heap, count=False, **kw)
         fails, warns = [], []
         for m in re.finditer(r'^"(FAIL|WARN)\|(\d+)\|([^|]*)\|([^|]*)\|(.*)"\s*$', r["out"], re.M):
-            rec = {"line": int(m.group(2)), "case": m.group(3), "what": m.group(4), "detail": m.group(5)[:600]}
+            rec = {"line": int(m.group(2)) + offset, "case": m.group(3), "what": m.group(4), "detail": m.group(5)[:600]}
             (fails if m.group(1) == "FAIL" else warns).append(rec)
         # every report must have been parsed: a lost FAIL line would be a silent miss
         if len(re.findall(r'"FAIL\|', r["out"])) != len(fails) or len(re.findall(r'"WARN\|', r["out"])) != len(warns):
